@@ -16,15 +16,156 @@ EXPLANATION = (
     "is incremented with the assignment (R4).")
 ASSUMPTIONS = ["hwloc-based topology queries return consistent numbers", "pika::detail::throws_if throws unless the caller supplied an error_code"]
 THOROUGH_CONFIGS = [["-UNDEBUG", "-DPIKA_DEBUG"]]
-FLOORS = {"C15.R1": 6, "C15.R2": 4, "C15.R3": 8, "C15.R4": 2}
+FLOORS = {"C15.R1": 6, "C15.R2": 4, "C15.R3": 8, "C15.R4": 2, "C15.R5": 8}
 
 DEC = ["decode_compact_distribution", "decode_scatter_distribution", "decode_balanced_distribution", "decode_numabalanced_distribution"]
+
+
+def _lin(e):
+    """e as (storage text, constant offset): S, S + c, S - c; None for anything else."""
+    e = strip(e)
+    if not isinstance(e, dict):
+        return None
+    if e.get("k") == "bin" and e.get("op") in ("+", "-"):
+        r = strip(e.get("r"))
+        if isinstance(r, dict) and r.get("k") == "lit" and isinstance(r.get("v"), int):
+            b = _lin(e.get("l"))
+            if b:
+                return (b[0], b[1] + (r["v"] if e["op"] == "+" else -r["v"]))
+        return None
+    if e.get("k") in ("var", "member") or (e.get("k") == "call" and e.get("op") == "[]"):
+        return (P(e), 0)
+    return None
+
+
+def _base_var(e):
+    e = strip(e)
+    while isinstance(e, dict) and e.get("k") == "call" and e.get("op") == "[]":
+        e = strip(e.get("recv"))
+    return e.get("name") if isinstance(e, dict) and e.get("k") == "var" else None
+
+
+def tested_index_rule(rep, f, d):
+    """Value flow of 'the index that pu_in_process_mask just accepted' (see rule text C15.R5).
+    State: set of (storage, offset): storage currently equals tested index + offset; ('?test', v): v holds
+    the result of the last test.  Join = intersection."""
+    from engine.core import forward
+    PIM = "pika::detail::pu_in_process_mask"
+
+    def is_pim(e):
+        e = strip(e)
+        return isinstance(e, dict) and e.get("k") == "call" and callee_of(e) == PIM and len(e.get("args", [])) == 4
+
+    def kill(st, name):
+        rx = re.compile(r"(?<![\w.>])%s(?![\w(])" % re.escape(name))
+        return frozenset(x for x in st if x[0] == "?test" and x[1] != name or (x[0] != "?test" and not rx.search(x[0])))
+
+    def is_false(e):
+        e = strip(e)
+        return isinstance(e, dict) and e.get("k") == "lit" and e.get("v") is False
+
+    def tr(st, ev, pos):
+        k = ev.get("k")
+        if k not in ("write", "decl"):
+            return st
+        lhs = P(ev["lhs"]) if k == "write" else ev.get("var")
+        rhs = ev.get("rhs") if k == "write" else ev.get("init")
+        op = ev.get("op", "=") if k == "write" else "="
+        if op == "=" and rhs is not None and is_false(rhs):
+            # 'use = false': the invariant "use => storage == accepted index + offset" holds vacuously
+            return ("TOP", lhs)
+        if isinstance(st, tuple):
+            if op == "=" and rhs is not None and is_pim(rhs):
+                st = frozenset()
+            elif lhs == st[1]:
+                return frozenset()
+            else:
+                return st
+        if op in ("++", "--"):
+            dlt = 1 if op == "++" else -1
+            moved = frozenset((x[0], x[1] + dlt) if x[0] == lhs else x for x in kill(st, lhs) | frozenset(x for x in st if x[0] == lhs))
+            return moved
+        if op != "=" or rhs is None:
+            return kill(st, lhs)
+        if is_pim(rhs):
+            x = _lin(strip(rhs)["args"][3])
+            if x and x[1] == 0:
+                return frozenset([(x[0], 0), ("?test", lhs)])
+            return frozenset()
+        r = _lin(rhs)
+        st2 = kill(st, lhs)
+        if r:
+            for s_, o in st:
+                if s_ == r[0] and s_ != "?test":
+                    st2 = st2 | frozenset([(lhs, o + r[1])])
+        return st2
+
+    def join(a, b):
+        if isinstance(a, tuple) and isinstance(b, tuple):
+            return a if a == b else frozenset()
+        if isinstance(a, tuple):
+            a, b = b, a
+        if isinstance(b, tuple):
+            return a if ("?test", b[1]) in a else frozenset()
+        return a & b
+    before, _, _ = forward(f, frozenset(), tr, None, join, eh=False)
+    ff = FactFlow(f, eh=False)
+
+    def accepted(e, pos):
+        """Is expression e, evaluated at pos, an individually tested index?  Returns a reason or None."""
+        fb = ff.before.get(pos) or frozenset()
+        x = _lin(e)
+        if x and x[1] == 0:
+            for a, t in fb:
+                if t and a.startswith("pu_in_process_mask(") and a.endswith("," + x[0] + ")"):
+                    return "tested directly on this path"
+        st = before.get(pos) or frozenset()
+        if isinstance(st, tuple):
+            st = frozenset()
+        tv = [v for tag, v in st if tag == "?test"]
+        if x and tv and (tv[0], True) in fb and any(s_ == x[0] and o + x[1] == 0 for s_, o in st if s_ != "?test"):
+            return "equals the index accepted by the last test (%s true)" % tv[0]
+        return None
+
+    # containers that only ever receive accepted indices
+    fills = {}
+    for b, i, ev in f.all_events():
+        if ev.get("k") == "call" and callee_short(ev) in ("push_back", "emplace_back") and ev.get("args"):
+            c = _base_var(ev.get("recv"))
+            if c:
+                fills.setdefault(c, []).append((b, i, ev))
+    good_cont = {}
+    for c, fl in fills.items():
+        why = [accepted(ev["args"][0], (b, i)) for b, i, ev in fl]
+        good_cont[c] = all(why)
+    sinks = []
+    for b, i, ev in f.all_events():
+        if ev.get("k") == "call" and callee_short(ev) in ("init_thread_affinity_mask", "get_pu_number") and len(ev.get("args", [])) >= 2 and \
+                "topology" in callee_of(ev):
+            sinks.append((b, i, ev))
+    if not sinks:
+        raise AnalysisBroken("%s: no binding site found" % d)
+    for b, i, ev in sinks:
+        e = ev["args"][1]
+        why = accepted(e, (b, i))
+        if not why:
+            x = _lin(e)
+            c = _base_var(e)
+            if x and x[1] == 0 and c in good_cont and strip(e).get("op") == "[]":
+                why = ("read unmodified from '%s', which is filled only with accepted indices (%d fill site(s))" % (c, len(fills[c]))) if good_cont[c] else None
+        if why:
+            rep.ok("C15.R5", f, "%s(.., %s): %s" % (callee_short(ev), T(e), why))
+        else:
+            rep.bad("C15.R5", f, loc_of(ev), "untested-pu:%s:%s" % (d, callee_short(ev)), "%s binds/reports PU index '%s', which is not an index that pu_in_process_mask "
+                    "accepted (neither tested on this path, nor equal to the accepted index, nor read unmodified from a container of accepted "
+                    "indices): with a process mask that has holes inside a core the worker is bound outside the mask" % (d, T(e)))
 
 
 def run(rep, tier):
     rep.rule("C15.R1", "K2/K7: check_num_threads dominates every affinity assignment; it refuses iff num_threads > available PUs")
     rep.rule("C15.R2", "K8: num_pus[i] = get_pu_number(a, b) and affinities[i] = init_thread_affinity_mask(a, b) use identical (a, b); the process mask is consulted")
     rep.rule("C15.R3", "K8: thread_func binds to affinity_data_.get_pu_mask(topo, global_thread_num) (machine mask if empty); workers numbered thread_offset_ + i")
+    rep.rule("C15.R5", "K4 (value flow): every PU index a worker is bound to (init_thread_affinity_mask / get_pu_number) individually passed pu_in_process_mask: tested directly, equal to the tested index by linear bookkeeping, or read unmodified from a container filled only with such indices")
     rep.rule("C15.R4", "K4/K8: add_resource assigns a PU only when unoccupied (unless oversubscription is allowed) and increments the occupancy with it")
 
     A = facts(rep, lib("affinity", "src/parse_affinity_options.cpp"), [r"^pika::detail::(decode_\w+_distribution|check_num_threads|pu_in_process_mask)$"])
@@ -103,6 +244,10 @@ def run(rep, tier):
         rep.ok("C15.R1", pim, "pu_in_process_mask tests the PU's mask against the main thread's cpubind mask")
     else:
         rep.bad("C15.R1", pim, pim.loc, "mask-test", "pu_in_process_mask no longer intersects the PU mask with the process mask")
+
+    # ---- R5: the bound PU index is an individually tested one
+    for d in DEC:
+        tested_index_rule(rep, fn(d), d)
 
     # ---- R3
     PL = facts(rep, lib("thread_pools", "src/scheduled_thread_pool.cpp"), [r"^pika::threads::detail::scheduled_thread_pool::(thread_func|run)$"])
